@@ -287,9 +287,19 @@ func (x *Exec) staticPath(t types.Type) (string, bool) {
 	return p, ok
 }
 
+// isOpaqueNamed: a named type declared opaque in the contract file (values are compared, never inspected).
+func (x *Exec) isOpaqueNamed(t types.Type) bool {
+	n, ok := types.Unalias(t).(*types.Named)
+	if !ok || n.Obj().Pkg() == nil {
+		return false
+	}
+	op := x.contracts().Opaque
+	return op[n.Obj().Name()] || op[n.Obj().Pkg().Name()+"."+n.Obj().Name()]
+}
+
 func (x *Exec) kindOf(t types.Type) VKind {
 	t = types.Unalias(t)
-	if isTimeTime(t) {
+	if isTimeTime(t) || x.isOpaqueNamed(t) {
 		return KScalar
 	}
 	switch u := t.Underlying().(type) {
@@ -320,6 +330,9 @@ func (x *Exec) scalarSort(t types.Type) Sort {
 	t = types.Unalias(t)
 	if isTimeTime(t) {
 		return SInt
+	}
+	if x.isOpaqueNamed(t) {
+		return SRef
 	}
 	switch u := t.Underlying().(type) {
 	case *types.Basic:
@@ -352,10 +365,13 @@ func elemType(t types.Type) types.Type {
 
 func (x *Exec) elemSort(t types.Type) Sort {
 	et := elemType(t)
-	if x.kindOf(et) != KScalar {
-		panic(engineErr("containers of composite elements are not supported: %s", t))
+	switch x.kindOf(et) {
+	case KScalar:
+		return x.scalarSort(et)
+	case KStruct:
+		return SRef // elements are boxed: a reference to an immutable copy of the struct value
 	}
-	return x.scalarSort(et)
+	panic(engineErr("containers of composite elements are not supported: %s", t))
 }
 
 // symbolic builds a symbolic value of type T whose components are named name.*;
